@@ -1,7 +1,7 @@
 (* C18: what the Identifier constructors admit. *)
 From V Require Import lib.Base lib.Regex lib.RegexDecide lib.Utf8 gen.GenRegex model.Ident spec.IdentSpec.
 From V Require Import proofs.RegexFacts proofs.RegexDecideFacts proofs.RegexSpecs proofs.Utf8Facts.
-From Coq Require Import ZifyBool ZifyN.
+From Coq Require Import ZifyBool ZifyN Lia.
 Local Open Scope N_scope.
 
 Lemma bridge_start_ok : bridge_start = true. Proof. vm_compute. reflexivity. Qed.
@@ -83,3 +83,86 @@ Example ident_rejects_newline : identifier_from_constant_prefix (B "a") [97; 10]
 Proof. vm_compute. reflexivity. Qed.
 Example ident_rejects_e_acute : identifier_from_constant [97; 195; 169] = None.
 Proof. vm_compute. reflexivity. Qed.
+
+(* ---- completeness: the constructors accept exactly the specified identifiers ---- *)
+(* completeness of the two specification expressions *)
+Lemma M_star_cls rs w : Forall (fun c => in_ranges c rs = true) w -> forall p n, M (Star (Cls rs)) p w n.
+Proof.
+  induction w as [|c t IH]; intros H p n; [apply MStar0|].
+  inversion H as [|c' t' Hc Ht]; subst.
+  change (c :: t) with ([c] ++ t). apply MStarS; [discriminate | apply MCls; exact Hc | apply IH; exact Ht].
+Qed.
+
+Lemma all_cls_accepts rs w : Forall (fun c => in_ranges c rs = true) w ->
+  accepts (Cat BeginText (Cat (Star (Cls rs)) EndText)) w = true.
+Proof.
+  intros H. apply accepts_M. change w with ([] ++ w). apply MCat; [apply MBeginText|].
+  rewrite <- (app_nil_r w). apply MCat; [apply M_star_cls; exact H | apply MEndText].
+Qed.
+
+Lemma begin_cls_accepts rs c t : in_ranges c rs = true -> wf_runes t ->
+  accepts (Cat BeginText (Cat (Cls rs) any_star)) (c :: t) = true.
+Proof.
+  intros Hc Ht. apply accepts_M. change (c :: t) with ([] ++ ([c] ++ t)). apply MCat; [apply MBeginText|].
+  apply MCat; [apply MCls; exact Hc | apply M_any_star_intro; exact Ht].
+Qed.
+
+Lemma ascii_decode_id n : Forall (fun c => c < 128) n -> decode_runes n = n.
+Proof. induction 1 as [|c n Hc Hn IH]; [reflexivity|]. rewrite decode_ascii by exact Hc. f_equal. exact IH. Qed.
+
+Lemma is_ident_char_cls c : is_ident_char c = true -> in_ranges c ident_cls = true /\ c < 128.
+Proof. unfold in_ranges, in_range, ident_cls, is_ident_char, is_alpha; simpl. lia. Qed.
+Lemma is_alpha_cls c : is_alpha c = true -> in_ranges c alpha_cls = true /\ is_ident_char c = true.
+Proof. unfold in_ranges, in_range, alpha_cls, is_ident_char, is_alpha; simpl. lia. Qed.
+
+Lemma ident_chars_complete v : forallb is_ident_char v = true ->
+  decode_runes v = v /\ valid_ident_chars v = true.
+Proof.
+  intros H. rewrite forallb_forall in H.
+  assert (Ha : Forall (fun c => c < 128) v) by (apply Forall_forall; intros c Hc; apply is_ident_char_cls, H, Hc).
+  pose proof (ascii_decode_id v Ha) as E. split; [exact E|].
+  unfold valid_ident_chars, go_match. rewrite E.
+  apply (incl_ok_sound _ _ bridge_chars_rev_ok). apply all_cls_accepts.
+  apply Forall_forall. intros c Hc. apply is_ident_char_cls, H, Hc.
+Qed.
+
+Lemma ident_spec_complete v : ident_spec v = true -> valid_ident_start v = true /\ valid_ident_chars v = true.
+Proof.
+  destruct v as [|b t]; [discriminate|]. cbn [ident_spec]. intros H. apply andb_true_iff in H as [Hb Ht].
+  destruct (is_alpha_cls b Hb) as (Hcls & Hic).
+  assert (Hall : forallb is_ident_char (b :: t) = true) by (cbn [forallb]; rewrite Hic, Ht; reflexivity).
+  destruct (ident_chars_complete (b :: t) Hall) as (E & Hc). split; [|exact Hc].
+  unfold valid_ident_start, go_match. rewrite E.
+  apply (incl_ok_sound _ _ bridge_start_rev_ok). apply begin_cls_accepts; [exact Hcls|].
+  apply Forall_forall. intros c Hc'. rewrite forallb_forall in Ht. pose proof (is_ident_char_cls c (Ht c Hc')) as (_ & L).
+  unfold max_rune. lia.
+Qed.
+
+(* the constructors accept EXACTLY the specified identifiers (no panic on any of them) *)
+Theorem ident_const_complete v : ident_spec v = true -> identifier_from_constant v = Some v.
+Proof.
+  intros H. destruct (ident_spec_complete v H) as (Hs & Hc). unfold identifier_from_constant. rewrite Hs, Hc. reflexivity.
+Qed.
+
+Theorem ident_prefix_complete p v : ident_spec p = true -> forallb is_ident_char v = true ->
+  identifier_from_constant_prefix p v = Some (p ++ [45] ++ v).
+Proof.
+  intros Hp Hv. destruct (ident_spec_complete p Hp) as (Hs & Hc). destruct (ident_chars_complete v Hv) as (_ & Hvc).
+  unfold identifier_from_constant_prefix. rewrite Hs, Hc, Hvc. reflexivity.
+Qed.
+
+Theorem ident_const_exact v : identifier_from_constant v = (if ident_spec v then Some v else None).
+Proof.
+  destruct (ident_spec v) eqn:E; [apply ident_const_complete; exact E|].
+  destruct (identifier_from_constant v) as [r|] eqn:R; [|reflexivity].
+  destruct (ident_const_spec v r R) as (-> & S). congruence.
+Qed.
+
+Theorem ident_prefix_exact p v :
+  identifier_from_constant_prefix p v = (if ident_spec p && forallb is_ident_char v then Some (p ++ [45] ++ v) else None).
+Proof.
+  destruct (ident_spec p && forallb is_ident_char v) eqn:E.
+  - apply andb_true_iff in E as [A B]. apply ident_prefix_complete; assumption.
+  - destruct (identifier_from_constant_prefix p v) as [r|] eqn:R; [|reflexivity].
+    destruct (ident_prefix_spec p v r R) as (_ & _ & A & B). rewrite A, B in E. discriminate.
+Qed.
